@@ -903,7 +903,7 @@ pub fn visit_stacks<Vz: StackVisitor>(v: &mut Vz) {
     }
     type Pair = (usize, usize);
     {
-        let mut c = full!(Str<Owned<u8>>, Vec<Pair>, "Vec<Index>", 1);
+        let mut c = full!(Str<Owned<u8>>, Vec<Pair>, "Vec<Index>", 1).reserving();
         c.exact_size = true;
         v.visit(entry_of::<Str<Owned<u8>>>(), c);
     }
@@ -917,7 +917,7 @@ pub fn visit_stacks<Vz: StackVisitor>(v: &mut Vz) {
         v.visit(e.clone(), full!(Mirror<usize>, IO, "IndexOptimized", 2));
         v.visit(e, full!(Mirror<usize>, IL, "IndexList", 2));
     }
-    v.visit(entry_of::<Consec<Str<Owned<u8>>, IO>>(), full!(Consec<Str<Owned<u8>>, IO>, IO, "IndexOptimized", 2).free_indices());
+    v.visit(entry_of::<Consec<Str<Owned<u8>>, IO>>(), full!(Consec<Str<Owned<u8>>, IO>, IO, "IndexOptimized", 2).free_indices().reserving());
     v.visit(entry_of::<Consec<Str<Owned<u8>>, IO>>(), full!(Consec<Str<Owned<u8>>, IO>, VU, "Vec<Index>", 1));
     v.visit(entry_of::<Consec<Str<Owned<u8>>, IO>>(), full!(Consec<Str<Owned<u8>>, IO>, IL, "IndexList", 2));
     v.visit(
@@ -930,13 +930,13 @@ pub fn visit_stacks<Vz: StackVisitor>(v: &mut Vz) {
         entry_of::<Consec<Owned<()>, IO>>(),
         StackCaps::<Consec<Owned<()>, IO>, IO>::new("IndexOptimized", 2).owned().by_ref().cloneable().free_indices(),
     );
-    v.visit(entry_of::<Slice<Mirror<u8>, Vec<u8>>>(), full!(Slice<Mirror<u8>, Vec<u8>>, Vec<Pair>, "Vec<Index>", 1));
+    v.visit(entry_of::<Slice<Mirror<u8>, Vec<u8>>>(), full!(Slice<Mirror<u8>, Vec<u8>>, Vec<Pair>, "Vec<Index>", 1).reserving());
     v.visit(
         entry_of::<Slice<Str<Owned<u8>>, Vec<Pair>>>(),
-        full!(Slice<Str<Owned<u8>>, Vec<Pair>>, Vec<Pair>, "Vec<Index>", 1),
+        full!(Slice<Str<Owned<u8>>, Vec<Pair>>, Vec<Pair>, "Vec<Index>", 1).reserving(),
     );
     v.visit(entry_of::<Collapse<Str<Owned<u8>>>>(), full!(Collapse<Str<Owned<u8>>>, Vec<Pair>, "Vec<Index>", 1));
-    v.visit(entry_of::<Opt<Str<Owned<u8>>>>(), full!(Opt<Str<Owned<u8>>>, Vec<Option<Pair>>, "Vec<Index>", 1));
+    v.visit(entry_of::<Opt<Str<Owned<u8>>>>(), full!(Opt<Str<Owned<u8>>>, Vec<Option<Pair>>, "Vec<Index>", 1).reserving());
     v.visit(
         entry_of::<Res<Str<Owned<u8>>, Mirror<u16>>>(),
         full!(Res<Str<Owned<u8>>, Mirror<u16>>, Vec<Result<Pair, u16>>, "Vec<Index>", 1),
